@@ -11,11 +11,14 @@ def _cfg(tier):
         ("d2", dict(C17_DEPTH=2, C17_NV=2, C17_NVAL=2, C17_ARITY=3, C17_SWAP=0)),
         ("d2swap", dict(C17_DEPTH=2, C17_NV=2, C17_NVAL=2, C17_ARITY=2, C17_SWAP=1)),
         ("d3narrow", dict(C17_DEPTH=3, C17_NV=2, C17_NVAL=2, C17_ARITY=2, C17_SWAP=0, C17_NARROW=2)),
+        ("d4chain", dict(C17_DEPTH=4, C17_NV=2, C17_NVAL=3, C17_ARITY=2, C17_SWAP=0, C17_NARROW=2,
+                         C17_NARROW_ALL=1, C17_CHAIN=1)),
     ]
   return [
       ("d2-3v2", dict(C17_DEPTH=2, C17_NV=3, C17_NVAL=2, C17_ARITY=3, C17_SWAP=1)),
       ("d2-2v3", dict(C17_DEPTH=2, C17_NV=2, C17_NVAL=3, C17_ARITY=3, C17_SWAP=1)),
       ("d3", dict(C17_DEPTH=3, C17_NV=2, C17_NVAL=2, C17_ARITY=2, C17_SWAP=0, C17_NARROW=1)),
+      ("d4chain", dict(C17_DEPTH=4, C17_NV=2, C17_NVAL=2, C17_ARITY=2, C17_SWAP=0, C17_NARROW=1, C17_CHAIN=1)),
   ]
 
 
